@@ -380,7 +380,7 @@ def run(repo, chk):
                 if isinstance(c, ast.Call) and norm(c.func) == "tokens.append" and c.args and isinstance(c.args[0], ast.Call) and norm(c.args[0].func) == "Token":
                     ty = kwarg(c.args[0], "type")
                     fallback = fallback or (isinstance(ty, ast.Constant) and ty.value is None)
-        incs = sorted(norm(n) for n in ast.walk(wl0[0]) if isinstance(n, ast.AugAssign) and norm(n.target) == "current")
+        incs = sorted(expand(n, lx0.node) for n in ast.walk(wl0[0]) if isinstance(n, ast.AugAssign) and norm(n.target) == "current")
         starts = [norm(kwarg(c, "start")) for c in ast.walk(wl0[0]) if isinstance(c, ast.Call) and norm(c.func) == "Token" and kwarg(c, "start") is not None]
         pos_ok = incs == ["current += 1", "current += m.end()"] and starts == ["current", "current"]
     chk.ob("R18.1", "opparse.Lexer.__call__:unmatched-character-becomes-a-token", fallback, lx0.where,
@@ -479,7 +479,7 @@ def run(repo, chk):
     wl = [n for n in walk_local(lx.node) if isinstance(n, ast.While)]
     ok = len(wl) == 1 and norm(wl[0].test) == "code"
     if ok:
-        shrinks = [norm(n) for n in ast.walk(wl[0]) if isinstance(n, ast.Assign) and norm(n.targets[0]) == "code"]
+        shrinks = [expand(n, lx.node) for n in ast.walk(wl[0]) if isinstance(n, ast.Assign) and norm(n.targets[0]) == "code"]
         ok = sorted(shrinks) == sorted(["code = code[m.end():]", "code = code[1:]"])
     chk.ob("R18.4", "opparse.Lexer.__call__:consumes-input", ok, lx.where,
            "every iteration of the lexer loop drops a matched prefix or one character (a match of length 0 cannot occur: every alternative requires at least one character)")
